@@ -22,12 +22,12 @@ VALUES = {
     "output_format": {1: "json", 2: "yaml", 9: "xml"},
     "max_retries": {1: "5", 2: "0", 3: "010", 9: "-1"},
     "timeout": {1: "60", 2: "1", 3: "0100", 4: "1:30", 5: "1e22", 6: "1e-7", 9: "0"},
-    "feature_flag": {1: "on", 2: "010", 3: "1:30", 4: "plain text", 5: "true", 6: "0"},
+    "feature_flag": {1: "on", 2: "010", 3: "1:30", 4: "plain text", 5: "true", 6: "0", 7: "false", 8: "1"},
     "greeting": {1: "Hi", 2: "Hello there", 3: "007", 4: "1e3", 5: "yes", 6: "null", 7: "true story", 8: "Hi \U0001F44B"},
 }
 # numeric keys: the number is what must come back (a decimal integer with a leading zero is that integer)
 # (a key without schema that holds no text yet reads "010" as the number 10 as well)
-PRINTED = {("max_retries", 3): "10", ("timeout", 3): "100", ("feature_flag", 2): "10", ("timeout", 5): "1e+22", ("feature_flag", 5): "True",
+PRINTED = {("max_retries", 3): "10", ("timeout", 3): "100", ("feature_flag", 2): "10", ("timeout", 5): "1e+22", ("feature_flag", 5): "True", ("feature_flag", 7): "False",
            ("timeout", 6): "1e-07"}
 USER_VALUES = {
     "nesting": {"max_nesting_depth": 2}, "srp": {"max_methods": 3, "max_loc": 77},
@@ -183,6 +183,8 @@ def run(chk) -> None:
               [["set", "feature_flag", 3], ["get", "feature_flag", 0], ["reset", "", 0]],
               [["set", "feature_flag", 5], ["get", "feature_flag", 0], ["set", "feature_flag", 6], ["get", "feature_flag", 0]],
               [["set", "feature_flag", 6], ["set", "feature_flag", 5], ["get", "feature_flag", 0], ["set", "feature_flag", 4], ["get", "feature_flag", 0]],
+              [["set", "feature_flag", 7], ["set", "feature_flag", 6], ["get", "feature_flag", 0]],
+              [["set", "feature_flag", 8], ["set", "feature_flag", 5], ["get", "feature_flag", 0], ["set", "feature_flag", 8], ["get", "feature_flag", 0]],
               [["set", "log_level", 1], ["set", "log_level", 9], ["get", "log_level", 0]],
               [["set", "timeout", 1], ["reset", "", 0], ["get", "timeout", 0]]]
     jobs = []
